@@ -52,6 +52,12 @@ def setup():
         jax.config.update("jax_compilation_cache_dir", d)
         jax.config.update("jax_persistent_cache_min_compile_time_secs", 0.0)
         jax.config.update("jax_persistent_cache_min_entry_size_bytes", -1)
+        try:  # bounded (LRU eviction, ~15 kB per entry); needs the filelock package
+            import filelock  # noqa: F401
+
+            jax.config.update("jax_compilation_cache_max_size", int(os.environ.get("VERIF_XLA_CACHE_MAX_BYTES", 3 * 2**30)))
+        except ImportError:
+            pass
 
 # ---------------------------------------------------------------- material lowering
 
@@ -495,13 +501,14 @@ def shrinks(spec: dict, min_sources: int = 0, min_detectors: int = 0, keep_pairs
         if fn(s) is not False:
             out.append(s)
 
-    if spec["steps"] > 2:
-        def fewer(s):
-            s["steps"] -= 1
-            lp = s.get("loop")
-            if lp and lp.get("cut") is not None:
-                lp["cut"] = max(1, min(lp["cut"], s["steps"] - 1)) if s["steps"] > 1 else None
-        var(fewer)
+    for target in sorted({max(1, spec["steps"] // 2), spec["steps"] - 1}):
+        if 1 <= target < spec["steps"]:
+            def fewer(s, target=target):
+                s["steps"] = target
+                lp = s.get("loop")
+                if lp and lp.get("cut") is not None:
+                    lp["cut"] = max(1, min(lp["cut"], target - 1)) if target > 1 else None
+            var(fewer)
     for i in range(len(spec.get("detectors", []))):
         if len(spec["detectors"]) > min_detectors:
             var(lambda s, i=i: s["detectors"].pop(i))
